@@ -331,6 +331,12 @@ func runC01(c *mon.Ctx) {
 			ops = churnScenario(r)
 			c.Count("stream_churn_histories")
 		}
+		if i%9 == 4 {
+			// a call rejected for its oversized adaptation field, repaired on the same object and repeated: the repeated unit
+			// (and the following ones) must come back unaltered
+			ops = retryScenario(r)
+			c.Count("rejected_calls_repaired_on_the_same_object")
+		}
 		hr := runHistory(ops, 1+r.IntN(6))
 		checkRoundTrip(c, "readd-auto", i, hr)
 		c.Count("explicit_pid_reassigned_automatically")
